@@ -149,6 +149,14 @@ def make_project(seed, nfiles, dup=False):
     if agg:
         decls[paths[0]].append("#[tauri::command]\npub fn load_aggregate(id: i32) -> Result<%s, String> {\n    todo!()\n}\n" % agg)
         meta["commands"].append("load_aggregate")
+    # two reachable types whose names differ only in case, a type that is serialised by hand (no derive), and a field of a
+    # type (`Duration`) that only a *qualified* mapping key could name
+    if seed % 2 == 1:
+        decls[rng.pick(paths)].append("#[derive(Debug, Clone, Serialize, Deserialize)]\npub struct UserId {\n    pub value: u64,\n}\n")
+        decls[rng.pick(paths)].append("#[derive(Debug, Clone, Serialize, Deserialize)]\npub struct UserID {\n    pub raw: String,\n    pub elapsed: Duration,\n}\n")
+        decls[rng.pick(paths)].append("pub struct ManualToken {\n    pub secret: String,\n}\n")
+        decls[rng.pick(paths)].append("#[tauri::command]\npub fn resolve_ids(a: UserId, b: UserID) -> Result<ManualToken, String> {\n    todo!()\n}\n")
+        meta["commands"].append("resolve_ids")
     # helper functions (no command attribute) that emit events: events are discovered in every function of every file
     for h in range(1 + rng.below(2)):
         ev = "helper-%s-%d" % (rng.pick(["ping", "tick", "done"]), h)
@@ -170,6 +178,8 @@ def render(project):
 
 NOISE = [
     "// just a comment\n",
+    "/// Serialized by hand: no `#[derive(Serialize, Deserialize)]` here on purpose.\n",
+    "// #[derive(Serialize)]\n/* #[tauri::command] */\n",
     "/// doc comment on a helper\nfn helper_%d() -> i32 {\n    42\n}\n",
     "pub struct NotSerde%d {\n    pub x: i32,\n}\n",
     "const LIMIT_%d: usize = 10;\n",
@@ -186,6 +196,10 @@ def add_noise(project, seed):
     for path, blocks in p2["files"].items():
         nb = []
         for b in blocks:
+            if b.startswith("pub struct") and "derive" not in b:
+                # a doc comment *on* a type that is not a serde type, mentioning the derive it does not have
+                nb.append("/// Serialized by hand: `#[derive(Serialize, Deserialize)]` is deliberately absent.\n" + b)
+                continue
             if rng.chance(1, 2):
                 t = rng.pick(NOISE)
                 k += 1
